@@ -108,7 +108,7 @@ theorem lstrip_fmtM (o : Nat) : ∀ (F : List MNode), cleanM F = true →
   | .expr n i cm :: ns, _ => by
       simp only [fmtM, MNode.fmt, ltrimN, List.cons_append]
       exact lstripBy_head _ _ _ isSpace_percent
-  | .elem t a ks :: ns, _ => by
+  | .elem sd t a ks :: ns, _ => by
       simp only [fmtM, MNode.fmt, ltrimN, List.cons_append]
       exact lstripBy_head _ _ _ isSpace_lbracket
 
@@ -120,7 +120,7 @@ theorem allSpace_fmtM (o : Nat) : ∀ (F : List MNode), cleanM F = true → (fmt
       rw [allSpace_fmtM o ns h.2]
   | .expr n i cm :: ns, _ => by
       simp [fmtM, MNode.fmt, allSpaceN, isSpace_percent]
-  | .elem t a ks :: ns, _ => by
+  | .elem sd t a ks :: ns, _ => by
       simp [fmtM, MNode.fmt, allSpaceN, isSpace_lbracket]
 
 theorem rstrip_node (o : Nat) : ∀ (n : MNode), n.clean = true → rstripBy isSpace (n.fmt o) = fmtM o (rtrimLast n)
@@ -134,7 +134,7 @@ theorem rstrip_node (o : Nat) : ∀ (n : MNode), n.clean = true → rstripBy isS
       simp only [MNode.fmt, rtrimLast, fmtM_single]
       have : ('%' :: '(' :: n ++ [')', 's']) = ('%' :: '(' :: n ++ [')']) ++ ['s'] := by simp
       rw [this, rstripBy_last _ _ _ isSpace_s]
-  | .elem t a ks, _ => by
+  | .elem sd t a ks, _ => by
       simp only [MNode.fmt, rtrimLast, fmtM_single]
       have : ('[' :: natStr o ++ [':'] ++ (fmtM (o + 1) ks ++ [']'])) = ('[' :: natStr o ++ [':'] ++ fmtM (o + 1) ks) ++ [']'] := by simp
       rw [this, rstripBy_last _ _ _ isSpace_rbracket]
@@ -142,7 +142,7 @@ theorem rstrip_node (o : Nat) : ∀ (n : MNode), n.clean = true → rstripBy isS
 theorem rtrimLast_size : ∀ (n : MNode), sizeM (rtrimLast n) = n.size
   | .text s => by simp only [rtrimLast]; split <;> simp [sizeM, MNode.size]
   | .expr _ _ _ => by simp [rtrimLast, sizeM, MNode.size]
-  | .elem _ _ _ => by simp [rtrimLast, sizeM]
+  | .elem _ _ _ _ => by simp [rtrimLast, sizeM]
 
 theorem rstrip_fmtM : ∀ (F : List MNode) (o : Nat), cleanM F = true →
     rstripBy isSpace (fmtM o F) = fmtM o (rtrimN F)
@@ -167,7 +167,7 @@ theorem cleanM_ltrimN : ∀ (F : List MNode), cleanM F = true → cleanM (ltrimN
       · exact cleanM_ltrimN ns h.2
       · simp [cleanM, MNode.clean, cleanText_lstrip s h.1, h.2]
   | .expr _ _ _ :: _, h => h
-  | .elem _ _ _ :: _, h => h
+  | .elem _ _ _ _ :: _, h => h
 
 theorem cleanM_rtrimLast : ∀ (n : MNode), n.clean = true → cleanM (rtrimLast n) = true
   | .text s, h => by
@@ -176,7 +176,7 @@ theorem cleanM_rtrimLast : ∀ (n : MNode), n.clean = true → cleanM (rtrimLast
       · rfl
       · simp [cleanM, MNode.clean, cleanText_rstrip s h]
   | .expr _ _ _, h => by simpa [rtrimLast, cleanM] using h
-  | .elem _ _ _, h => by simpa [rtrimLast, cleanM] using h
+  | .elem _ _ _ _, h => by simpa [rtrimLast, cleanM] using h
 
 theorem cleanM_rtrimN : ∀ (F : List MNode), cleanM F = true → cleanM (rtrimN F) = true
   | [], _ => rfl
@@ -188,6 +188,36 @@ theorem cleanM_rtrimN : ∀ (F : List MNode), cleanM F = true → cleanM (rtrimN
 
 theorem cleanM_trimF (F : List MNode) (h : cleanM F = true) : cleanM (trimF F) = true :=
   cleanM_rtrimN _ (cleanM_ltrimN F h)
+
+theorem subsOKM_ltrimN (i : Bool) : ∀ (F : List MNode), subsOKM i F = true → subsOKM i (ltrimN F) = true
+  | [], _ => rfl
+  | .text s :: ns, h => by
+      simp only [subsOKM, MNode.subsOK, Bool.true_and] at h
+      simp only [ltrimN]
+      split
+      · exact subsOKM_ltrimN i ns h
+      · simp [subsOKM, MNode.subsOK, h]
+  | .expr _ _ _ :: _, h => h
+  | .elem _ _ _ _ :: _, h => h
+
+theorem subsOKM_rtrimLast (i : Bool) : ∀ (n : MNode), n.subsOK i = true → subsOKM i (rtrimLast n) = true
+  | .text s, _ => by
+      simp only [rtrimLast]; split
+      · rfl
+      · simp [subsOKM, MNode.subsOK]
+  | .expr _ _ _, h => by simp [rtrimLast, subsOKM, MNode.subsOK]
+  | .elem _ _ _ _, h => by simpa [rtrimLast, subsOKM] using h
+
+theorem subsOKM_rtrimN (i : Bool) : ∀ (F : List MNode), subsOKM i F = true → subsOKM i (rtrimN F) = true
+  | [], _ => rfl
+  | n :: ns, h => by
+      simp only [subsOKM, Bool.and_eq_true] at h
+      simp only [rtrimN]; split
+      · exact subsOKM_rtrimLast i n h.1
+      · simp [subsOKM, h.1, subsOKM_rtrimN i ns h.2]
+
+theorem subsOKM_trimF (i : Bool) (F : List MNode) (h : subsOKM i F = true) : subsOKM i (trimF F) = true :=
+  subsOKM_rtrimN i _ (subsOKM_ltrimN i F h)
 
 /-- **format() strips the message**: the stripped message string of the content is the
     message string of the trimmed content -/
@@ -203,7 +233,7 @@ theorem valsM_ltrimN : ∀ (F : List MNode), valsM (ltrimN F) = valsM F
       · simp [valsM, MNode.vals, valsM_ltrimN ns]
       · simp [valsM, MNode.vals]
   | .expr _ _ _ :: _ => rfl
-  | .elem _ _ _ :: _ => rfl
+  | .elem _ _ _ _ :: _ => rfl
 
 theorem valsM_allSpaceN : ∀ (F : List MNode), allSpaceN F = true → valsM F = []
   | [], _ => rfl
@@ -211,12 +241,12 @@ theorem valsM_allSpaceN : ∀ (F : List MNode), allSpaceN F = true → valsM F =
       simp only [allSpaceN, Bool.and_eq_true] at h
       simp [valsM, MNode.vals, valsM_allSpaceN ns h.2]
   | .expr _ _ _ :: _, h => by simp [allSpaceN] at h
-  | .elem _ _ _ :: _, h => by simp [allSpaceN] at h
+  | .elem _ _ _ _ :: _, h => by simp [allSpaceN] at h
 
 theorem valsM_rtrimLast : ∀ (n : MNode), valsM (rtrimLast n) = n.vals
   | .text s => by simp only [rtrimLast]; split <;> simp [valsM, MNode.vals]
   | .expr _ _ _ => by simp [rtrimLast, valsM]
-  | .elem _ _ _ => by simp [rtrimLast, valsM]
+  | .elem _ _ _ _ => by simp [rtrimLast, valsM]
 
 theorem valsM_rtrimN : ∀ (F : List MNode), valsM (rtrimN F) = valsM F
   | [] => rfl
@@ -235,7 +265,7 @@ theorem infoM_ltrimN (o : Nat) : ∀ (F : List MNode) (k : Nat), infoM o (ltrimN
       · simp [infoM, MNode.info, MNode.size, infoM_ltrimN o ns k]
       · simp [infoM, MNode.info, MNode.size]
   | .expr _ _ _ :: _, _ => rfl
-  | .elem _ _ _ :: _, _ => rfl
+  | .elem _ _ _ _ :: _, _ => rfl
 
 theorem infoM_allSpaceN (o : Nat) : ∀ (F : List MNode) (k : Nat), allSpaceN F = true → infoM o F k = none
   | [], _, _ => rfl
@@ -243,14 +273,14 @@ theorem infoM_allSpaceN (o : Nat) : ∀ (F : List MNode) (k : Nat), allSpaceN F 
       simp only [allSpaceN, Bool.and_eq_true] at h
       simp [infoM, MNode.info, MNode.size, infoM_allSpaceN o ns k h.2]
   | .expr _ _ _ :: _, _, h => by simp [allSpaceN] at h
-  | .elem _ _ _ :: _, _, h => by simp [allSpaceN] at h
+  | .elem _ _ _ _ :: _, _, h => by simp [allSpaceN] at h
 
 theorem infoM_rtrimLast (o : Nat) : ∀ (n : MNode) (k : Nat), infoM o (rtrimLast n) k = n.info o k
   | .text s, k => by simp only [rtrimLast]; split <;> simp [infoM, MNode.info]
   | .expr _ _ _, k => by simp [rtrimLast, infoM, MNode.info]
-  | .elem t a ks, k => by
+  | .elem sd t a ks, k => by
       simp only [rtrimLast, infoM]
-      cases (MNode.elem t a ks).info o k <;> rfl
+      cases (MNode.elem sd t a ks).info o k <;> rfl
 
 theorem infoM_rtrimN : ∀ (F : List MNode) (o k : Nat), infoM o (rtrimN F) k = infoM o F k
   | [], _, _ => rfl
@@ -269,19 +299,19 @@ theorem ltrimN_noTop : ∀ (F : List MNode), hasTopText F = false → ltrimN F =
   | [], _ => rfl
   | .text _ :: _, h => by simp [hasTopText] at h
   | .expr _ _ _ :: _, _ => rfl
-  | .elem _ _ _ :: _, _ => rfl
+  | .elem _ _ _ _ :: _, _ => rfl
 
 theorem allSpaceN_noTop : ∀ (F : List MNode), hasTopText F = false → F ≠ [] → allSpaceN F = false
   | [], _, h => absurd rfl h
   | .text _ :: _, h, _ => by simp [hasTopText] at h
   | .expr _ _ _ :: _, _, _ => rfl
-  | .elem _ _ _ :: _, _, _ => rfl
+  | .elem _ _ _ _ :: _, _, _ => rfl
 
 theorem rtrimN_noTop : ∀ (F : List MNode), hasTopText F = false → rtrimN F = F
   | [], _ => rfl
   | .text _ :: _, h => by simp [hasTopText] at h
   | .expr _ _ _ :: _, h => by simp [hasTopText] at h
-  | .elem t a ks :: ns, h => by
+  | .elem sd t a ks :: ns, h => by
       have hn : hasTopText ns = false := by simpa [hasTopText] using h
       simp only [rtrimN]
       cases ns with
@@ -297,7 +327,7 @@ theorem trimF_noTop (F : List MNode) (h : hasTopText F = false) : trimF F = F :=
     of a message, asked to translate its own `format()`, returns the content without its
     edge white space, adjacent text merged. -/
 theorem translate_format_self (F : List MNode) (extra : List Str)
-    (hc : cleanM F = true) (hna : deepNoAdjM F = true) (hnd : (namesM F).Nodup) :
+    (hc : cleanM F = true) (hna : deepNoAdjM F = true) (hnd : (namesM F).Nodup) (hso : subsOKM false F = true) :
     ∃ b, mbAppendList (MB.new (namesM F ++ extra)) (flattenM F) = .ok b ∧
       b.translate b.format = .ok (coalesce (flattenM (trimF F))) := by
   have hc' := cleanM_trimF F hc
@@ -325,13 +355,13 @@ theorem translate_format_self (F : List MNode) (extra : List Str)
       · exact this.2 s hs
   obtain ⟨b, hrun, hfmt, htr⟩ := translate_message F extra (Yv (valsM F).reverse)
     (segStr (firstSeg (trimF F))) (xRestOf 1 (trimF F)) hna
-    (compat_xRest (infoM 1 F) (trimF F) 1 (fun k x h => by rwa [infoM_trimF] at h))
+    (compat_xRest (infoM 1 F) (trimF F) 1 false (fun k x h => by rwa [infoM_trimF] at h) (subsOKM_trimF false F hso))
     (by rw [nums_xRest]; exact List.nodup_range')
     (plainSeg_segStr _ (Piece.ok_firstSeg _ hc')) (plain_xRest 1 _ hc') hseg htop
   refine ⟨b, hrun, ?_⟩
   rw [hfmt, strip_fmtM F 1 hc, ← fmt_xRest 1 (trimF F) hc', htr]
   have := coal_forest (valsM F).reverse (worldOf F) (trimF F) 1 [] [] hc' hb
-    (fun k t a c h => by rw [infoM_trimF] at h; simp [worldOf, h]) rfl
+    (fun k t a c kd h => by rw [infoM_trimF] at h; simp [worldOf, h]) rfl
   simp only [List.append_nil] at this
   rw [coalesce, this, (Yv_firstSeg _ _ hc' hb).2]
   simp [segEvents, coalGo, flushText]
@@ -351,10 +381,10 @@ theorem dropLast_append_last {α} : ∀ (rest : List α) (last : α), rest.getLa
 
 /-- attribute form: `<p i18n:msg="…">content</p>` -/
 theorem msgGenerate_identity_attr (t : QName) (a : TAttrs) (F : List MNode) (extra : List Str)
-    (hc : cleanM F = true) (hna : deepNoAdjM F = true) (hnd : (namesM F).Nodup) :
+    (hc : cleanM F = true) (hna : deepNoAdjM F = true) (hnd : (namesM F).Nodup) (hso : subsOKM false F = true) :
     msgGenerate (namesM F ++ extra) (fun s => s) (.start t a :: (flattenM F ++ [.end_ t])) =
       .ok (.start t a :: (coalesce (flattenM (trimF F)) ++ [.end_ t])) := by
-  obtain ⟨b, hrun, htr⟩ := translate_format_self F extra hc hna hnd
+  obtain ⟨b, hrun, htr⟩ := translate_format_self F extra hc hna hnd hso
   simp only [msgGenerate, msgBuffer, TEvent.isStart, ↓reduceIte, List.getLast?_append, List.getLast?_singleton,
     Option.some_or, List.dropLast_concat, TEvent.isEnd, bind, Except.bind, pure, Except.pure, hrun, htr]
   simp
@@ -387,23 +417,23 @@ theorem msgBuffer_plain (ps : List Str) (first : TEvent) (rest : List TEvent)
         cases mbAppend b1 last <;> simp [Except.map, pure, Except.pure]
 
 def MNode.isElem : MNode → Bool
-  | .elem _ _ _ => true
+  | .elem _ _ _ _ => true
   | _ => false
 
 theorem flatten_head_not_start : ∀ (n : MNode), n.isElem = false → ∃ e, n.flatten = [e] ∧ e.isStart = false ∧ e.isEnd = false
   | .text s, _ => ⟨.text s, rfl, rfl, rfl⟩
   | .expr _ i cm, _ => ⟨.expr i cm, rfl, rfl, rfl⟩
-  | .elem _ _ _, h => by simp [MNode.isElem] at h
+  | .elem _ _ _ _, h => by simp [MNode.isElem] at h
 
 /-- element form: `<i18n:msg params="…">content</i18n:msg>`, the content neither starting nor
     ending with an element (else: finding C19-msg-element-first-child) -/
 theorem msgGenerate_identity_elem (n : MNode) (mid : List MNode) (l : MNode) (extra : List Str)
     (hn : n.isElem = false) (hl : l.isElem = false)
     (hc : cleanM (n :: (mid ++ [l])) = true) (hna : deepNoAdjM (n :: (mid ++ [l])) = true)
-    (hnd : (namesM (n :: (mid ++ [l]))).Nodup) :
+    (hnd : (namesM (n :: (mid ++ [l]))).Nodup) (hso : subsOKM false (n :: (mid ++ [l])) = true) :
     msgGenerate (namesM (n :: (mid ++ [l])) ++ extra) (fun s => s) (flattenM (n :: (mid ++ [l]))) =
       .ok (coalesce (flattenM (trimF (n :: (mid ++ [l]))))) := by
-  obtain ⟨b, hrun, htr⟩ := translate_format_self (n :: (mid ++ [l])) extra hc hna hnd
+  obtain ⟨b, hrun, htr⟩ := translate_format_self (n :: (mid ++ [l])) extra hc hna hnd hso
   obtain ⟨e1, he1, hs1, _⟩ := flatten_head_not_start n hn
   obtain ⟨e2, he2, _, hend2⟩ := flatten_head_not_start l hl
   have hflat : flattenM (n :: (mid ++ [l])) = e1 :: (flattenM mid ++ [e2]) := by
